@@ -113,6 +113,7 @@ fn check_expr(ctx: &mut Ctx, text: &str, setup: &Setup, sig: &str) {
     match model {
         Err(t) => {
             ctx.outcome("not-compared");
+            ctx.outcome(&format!("left-open: {}", t.0));
             ctx.transition(&("taint", t.0.clone()));
         }
         Ok(m) => {
